@@ -133,6 +133,26 @@ def r2_no_retention(ctx):
                               "copy: a later in-place edit by the caller "
                               "changes the library's state (and change "
                               "detection compares the object with itself)")
+        # stores that bypass the copy in FitProperties.__setitem__
+        for c in walk_no_nested(f, False):
+            if not (isinstance(c, ast.Call) and isinstance(
+                    c.func, ast.Attribute) and c.func.attr in (
+                        "restore", "update", "setdefault") and c.args):
+                continue
+            recv = norm(c.func.value)
+            if not (recv.endswith("fit_properties") or recv in (
+                    "fp", "self.fp") or recv in al_fp):
+                continue
+            payload = c.args[-1]
+            for leaked in _leaks_all(payload, al):
+                n += 1
+                ctx.fail(c, f"{recv}.{c.func.attr}(...) retains `{leaked}`",
+                         f"{m.name}.{q} stores the caller's `{leaked}` in "
+                         f"the fit properties through `{c.func.attr}`, "
+                         "which bypasses the copy made by "
+                         "FitProperties.__setitem__: a later in-place edit "
+                         "by the caller changes the stored settings and is "
+                         "not noticed when the object is passed again")
     ctx.floor("parameter-derived stores into long-lived state", n, 3)
 
 
